@@ -1078,7 +1078,7 @@ func (mpt *MerklePatriciaTrie) MergeMPTChanges(mpt2 MerklePatriciaTrieI) error {
 	defer mpt.mutex.Unlock()
 	db, ok := mpt.db.(*LevelNodeDB)
 	if ok {
-		db.version = newLNDB.version
+		db.setDBVersion(newLNDB.GetDBVersion())
 	} else {
 		Logger.Warn("MergeMPTChanges - mpt db is not *LevelNodeDB",
 			zap.Int64("version", int64(mpt.GetVersion())))
